@@ -84,6 +84,54 @@ def make_single(frontend, framing):
     return single
 
 
+def make_config(which):
+    """the real server classes' constructors (socket binding stubbed out) must carry ignore_missing_slaves and
+    broadcast_enable through to the attributes the handlers read"""
+    def config(im: bool, bc: bool) -> bool:
+        import socketserver
+        from pymodbus.datastore import ModbusServerContext
+        ctx = ModbusServerContext(slaves=SL.small_context(), single=True)
+        if which in ("sync.ModbusTcpServer", "sync.ModbusUdpServer"):
+            import pymodbus.server.sync as S
+            base = socketserver.ThreadingTCPServer if which.endswith("TcpServer") else socketserver.ThreadingUDPServer
+            orig = base.__init__
+            base.__init__ = lambda self, *a, **k: None        # no socket is created (environment)
+            try:
+                srv = getattr(S, which.split(".")[1])(ctx, ignore_missing_slaves=im, broadcast_enable=bc)
+            finally:
+                base.__init__ = orig
+        elif which == "sync.ModbusSerialServer":
+            import pymodbus.server.sync as S
+            orig = S.ModbusSerialServer._connect
+            S.ModbusSerialServer._connect = lambda self: False
+            try:
+                srv = S.ModbusSerialServer(ctx, ignore_missing_slaves=im, broadcast_enable=bc)
+            finally:
+                S.ModbusSerialServer._connect = orig
+        elif which.startswith("asyncio"):
+            import pymodbus.server.async_io as A
+
+            class L(object):
+                def create_future(self):
+                    return None
+
+                def create_server(self, *a, **k):
+                    return None
+
+                def create_datagram_endpoint(self, *a, **k):
+                    return None
+            srv = getattr(A, which.split(".")[1])(ctx, loop=L(), ignore_missing_slaves=im, broadcast_enable=bc)
+        else:
+            import pymodbus.server.asynchronous as T
+            if which == "twisted.ModbusServerFactory":
+                srv = T.ModbusServerFactory(ctx, ignore_missing_slaves=im)
+            else:
+                srv = T.ModbusUdpProtocol(ctx, ignore_missing_slaves=im)
+            return srv.ignore_missing_slaves == im
+        return srv.ignore_missing_slaves == im and srv.broadcast_enable == bc
+    return config
+
+
 def obligations(tier):
     from harness import kernels
     T = 300 if tier == "quick" else 1200
@@ -105,4 +153,8 @@ def obligations(tier):
                                bounds="%s / %s: hosted unit ids u1 != u2 in 0..255 and addressed unit 0..255 symbolic; FC6 body, tid, both 4-register tables symbolic; ignore_missing_slaves=%s broadcast_enable=%s" % (fe, fr, im, bc)))
             out.append(Obl("single.%s.%s" % (fe, fr), make_single(fe, fr), timeout=T, contracts=CONTRACTS[fr], lemmas=LEMMAS[fr],
                            bounds="%s / %s single-context mode: addressed unit 0..255 symbolic" % (fe, fr)))
+    for which in ("sync.ModbusTcpServer", "sync.ModbusUdpServer", "sync.ModbusSerialServer", "asyncio.ModbusTcpServer",
+                  "asyncio.ModbusUdpServer", "twisted.ModbusServerFactory", "twisted.ModbusUdpProtocol"):
+        out.append(Obl("config.%s" % which, make_config(which), timeout=T,
+                       bounds="constructor of %s with symbolic ignore_missing_slaves / broadcast_enable (socket creation stubbed): the attributes read by the handlers carry those values" % which))
     return out
